@@ -63,6 +63,16 @@ class _C06(Spec):
                         for d in range(1, 31):
                             g.append("byname convraw %s %s gregorian %d %d %d" % (hist, cal, y, m, d))
             sw_groups.append(g)
+        # the SAME day asked again right after a switch (and again after switching back), day by day
+        for (cal, t0, t1) in (("hijri", "M1,A0", "M0,A0"), ("jalali", "M1,A0", "M1,A1")):
+            g = []
+            days = list(range(2453430, 2453480)) + list(range(2459660, 2459770)) + list(range(2121440, 2121450))
+            days += [rng.randrange(2453442, 2459673) for _ in range(300 if tier == "quick" else 3000)]
+            for jd in days:
+                for hist in (t0, t1, t0):
+                    g.append("byname conv %s %s gregorian julian %d" % (hist, cal, jd))
+                    g.append("byname conv %s gregorian %s julian %d" % (hist, cal, jd))
+            sw_groups.append(g)
         sts.append(Stream("byname-switch-sweeps", None, groups=sw_groups))
         rreqs = []
         n = 60000 if tier == "quick" else 600000
